@@ -352,6 +352,36 @@ def rule_R7(ck):
     if gen[0].kind != "return" or gen[0].value != want:
         ck.violation("deferred::LinearPolynomial._wait", f"waiting c1*K1 + C after K1 := d1*K2 + D and K2 := E gives {gen[0].value!r}, the algebra requires {want!r}",
                      construct="poly wait substitution", expected=repr(want), found=repr(gen[0].value))
+    # arithmetic with a value that is ALREADY known (a settled promise, a polynomial without variables): the same numbers as before it was known
+    def known_cases():
+        out = []
+        for name, mk in (("int - known", lambda K: I.binop(ast.Sub(), L, K)), ("known - int", lambda K: I.binop(ast.Sub(), K, L)), ("int + known", lambda K: I.binop(ast.Add(), L, K)),
+                         ("int * known", lambda K: I.binop(ast.Mult(), L, K)), ("-known", lambda K: I.call_method(K, "__neg__", []))):
+            want = {"int - known": sym.sub(L, E), "known - int": sym.sub(E, L), "int + known": sym.add(L, E), "int * known": sym.mul(L, E), "-known": sym.neg(E)}[name]
+            for kind in ("settled promise", "waited promise", "evaluated thunk"):
+                def th(mk=mk, kind=kind):
+                    if kind == "evaluated thunk":
+                        K = I.instantiate(I.module_get("deferred", "Deferred"), [I.builtin_types["int"], PyFn(lambda I_, a, k: E)], {})
+                        I.call(I.module_get("deferred", "wait"), [K], {})
+                    else:
+                        K = prom("K")
+                        I.call_method(K, "settle", [E])
+                        if kind == "waited promise":
+                            I.call(I.module_get("deferred", "wait"), [K], {})
+                    return I.call(I.module_get("deferred", "wait"), [mk(K)], {})
+                out.append((name, kind, th, want))
+        return out
+    for name, kind, th, want in known_cases():
+        try:
+            ps = I.explore(th)
+        except Unsupported as ex:
+            ck.unknown(f"{name} ({kind}): {ex}")
+            continue
+        gen = [p for p in ps if all(v for k, v in p.decisions)] or ps
+        ck.instance(("known", name, kind), {"operation": name, "operand": kind, "value": repr(gen[0].value)} if kind == "waited promise" else None, fn="deferred::BaseDeferred")
+        if gen[0].kind != "return" or gen[0].value != want:
+            ck.violation("deferred::BaseDeferred", f"{name} with a {kind} (value E): {gen[0].value!r}, expected {want!r} - an operand that has already been evaluated (a symbol used a second time, "
+                                                   "the first label of a file, a label after '.link') must give the same result as one that has not", construct=f"arithmetic with a known deferred: {name}")
     # once every variable is known the polynomial IS its constant: its best estimate is that number (not the polynomial, not None)
     def thunk_be():
         K1 = prom("K1")
@@ -517,6 +547,20 @@ def rule_R8(ck):
                     if ("extern_symbols_mapping" in attrs or src & tainted) and set(names) - tainted:
                         tainted.update(names)
                         changed = True
+                # candidates.append(extern_mapping[1]) / candidates += [...]: the container carries the binding
+                if isinstance(n, ast.Call) and isinstance(n.func, ast.Attribute) and n.func.attr in ("append", "extend", "insert", "add", "update") and isinstance(n.func.value, ast.Name) \
+                        and n.func.value.id not in tainted and ({m.id for a_ in n.args for m in ast.walk(a_) if isinstance(m, ast.Name)} & tainted
+                                                                 or any("extern_symbols_mapping" in {m.attr for m in ast.walk(a_) if isinstance(m, ast.Attribute)} for a_ in n.args)):
+                    tainted.add(n.func.value.id)
+                    changed = True
+                if isinstance(n, ast.AugAssign) and isinstance(n.target, ast.Name) and n.target.id not in tainted and {m.id for m in ast.walk(n.value) if isinstance(m, ast.Name)} & tainted:
+                    tainted.add(n.target.id)
+                    changed = True
+                if isinstance(n, (ast.For, ast.comprehension)) and {m.id for m in ast.walk(n.iter) if isinstance(m, ast.Name)} & tainted:
+                    for m in ast.walk(n.target):
+                        if isinstance(m, ast.Name) and m.id not in tainted:
+                            tainted.add(m.id)
+                            changed = True
         rets = [r for r in walk_local(fn) if isinstance(r, ast.Return) and r.value is not None and not (isinstance(r.value, ast.Constant) and r.value.value is None)
                 and ({m.id for m in ast.walk(r.value) if isinstance(m, ast.Name)} & tainted or "extern_symbols_mapping" in {m.attr for m in ast.walk(r.value) if isinstance(m, ast.Attribute)})]
         if tainted:
